@@ -542,6 +542,28 @@ func sanitize(s string) string {
 
 // runChild runs cases [from,to) in a child; returns records, crash violations (if the child died) and the next case to run.
 func runChild(cfg *Config, self, tier string, seed int64, work string, bi, from, to int, extraEnv []string, replay bool) ([]Record, []Violation, int) {
+	return runChildOpt(cfg, self, tier, seed, work, bi, from, to, extraEnv, replay, false)
+}
+
+// spinsInDesync: the dump shows a goroutine that is running or runnable with a desync frame on its stack.
+func spinsInDesync(dump string) bool {
+	for _, g := range strings.Split(dump, "\n\ngoroutine ") {
+		nl := strings.Index(g, "\n")
+		if nl < 0 {
+			continue
+		}
+		hdr := g[:nl]
+		if !(strings.Contains(hdr, "[running") || strings.Contains(hdr, "[runnable")) {
+			continue
+		}
+		if strings.Contains(g, "github.com/folbricht/desync.") {
+			return true
+		}
+	}
+	return false
+}
+
+func runChildOpt(cfg *Config, self, tier string, seed int64, work string, bi, from, to int, extraEnv []string, replay bool, retry bool) ([]Record, []Violation, int) {
 	cdir := filepath.Join(work, fmt.Sprintf("b%d-%d", bi, from))
 	os.MkdirAll(cdir, 0755)
 	out := filepath.Join(cdir, "out.jsonl")
@@ -632,6 +654,16 @@ wait:
 	case timedOut:
 		if dumpIsDeadlock(stderr) {
 			class = "hang"
+		} else if cfg.DeadlockIsViolation && spinsInDesync(stderr) && retry {
+			// No progress for the whole watchdog period (orders of magnitude above a normal case), twice, in a fresh
+			// process the second time, with a goroutine burning CPU inside desync code: reproducible non-termination
+			// of an operation whose property promises termination.
+			class = "spin"
+		} else if cfg.DeadlockIsViolation && spinsInDesync(stderr) && !retry {
+			saveWitness(cfg.Prop, seed, caseIdx, "watchdog-first", stderr)
+			os.RemoveAll(cdir)
+			r2, v2, _ := runChildOpt(cfg, self, tier, seed, work, bi+1000000, caseIdx, caseIdx+1, extraEnv, replay, true)
+			return append(recs, r2...), v2, caseIdx + 1
 		} else {
 			// inconclusive: report as a record
 			w := saveWitness(cfg.Prop, seed, caseIdx, "watchdog", stderr)
